@@ -431,7 +431,8 @@ def fresh_names(chk, rid):
 
   def augassign(node, cur, v, st, interp):
     return NotImplemented
-  it = Interp(fi.node, dict(call=call, compare=compare, expr=strshape.expr_hook))
+  it = Interp(fi.node, dict(call=call, compare=compare, expr=strshape.expr_hook,
+                            loop=lambda n, s: 'once'))
   outs = [o for o in it.run(State(env={'hint_for_user': Sym('HINT')})) if o.kind == 'return']
   if not outs:
     raise AnalysisError('AllocateTable: no return path')
